@@ -13,21 +13,26 @@ def run(prop, root):
 
 def main():
     wt = sys.argv[1]
-    ks = sys.argv[2:] or sorted({os.path.basename(f)[5:-5] for f in glob.glob(os.path.join(wt, "out", "twin_*.diff"))})
+    odir = os.path.join(wt, "out") if os.path.isdir(os.path.join(wt, "out")) else wt
+    only = os.environ.get("ONLY_PROPS")
+    global PROPS
+    if only:
+        PROPS = only.split(",")
+    ks = sys.argv[2:] or sorted({os.path.basename(f)[5:-5] for f in glob.glob(os.path.join(odir, "twin_*.diff"))})
     for k in ks:
-        diff = os.path.join(wt, "out", f"twin_{k}.diff")
+        diff = os.path.abspath(os.path.join(odir, f"twin_{k}.diff"))
         d = tempfile.mkdtemp(prefix="pyseqm_twin_")
         try:
             for sub in ("seqm", "scripts"):
                 shutil.copytree(os.path.join("/repo", sub), os.path.join(d, sub), ignore=shutil.ignore_patterns("__pycache__", "*.pyc"))
             r = subprocess.run(["patch", "-p1", "-s", "-f", "--no-backup-if-mismatch", "-d", d, "-i", diff], capture_output=True, text=True)
             if r.returncode:
-                print(f"twin {k}: PATCH FAILED {r.stdout[:200]}")
+                print(f"twin {k}: PATCH FAILED {r.stdout[:200]} {r.stderr[:300]}")
                 continue
             with ThreadPoolExecutor(max_workers=10) as ex:
                 res = list(ex.map(lambda p: run(p, d), PROPS))
             noisy = [(p, rc, out) for p, rc, out in res if rc != 0]
-            print(f"twin {k}: " + ("all 20 silent" if not noisy else "FLAGGED by " + ", ".join(f"{p}(rc={rc})" for p, rc, _ in noisy)))
+            print(f"twin {k}: " + (f"all {len(PROPS)} silent" if not noisy else "FLAGGED by " + ", ".join(f"{p}(rc={rc})" for p, rc, _ in noisy)))
             for p, rc, out in noisy:
                 for l in out.splitlines():
                     if l.startswith(("  " + p, "ANALYSIS")):
